@@ -539,7 +539,12 @@ func (s *GenSource) genTx(w *World, b *Block) ([]byte, string) {
 	}
 	sp := &txSpec{amount: u256(0), gas: w.Params.MinTrxGas}
 
+	if len(w.Contracts) == 0 && (op == "callp" || op == "transferc") {
+		op = "deployp"
+	}
 	switch op {
+	case "deployp", "callp", "transferc":
+		return s.finish(w, s.genEVMTx(w, op))
 	case "replay":
 		raw := pick(t, s.sentAll, "replayOf")
 		return raw, "replay"
